@@ -5,7 +5,7 @@ use std::collections::BTreeMap;
 use std::f64::consts::PI;
 
 use crate::prng::Xo;
-use crate::spaces::{geo_for, kind_name, layout, Comp, Geo};
+use crate::spaces::{geo_for, kind_name, layout, width, Comp, Geo};
 use crate::spec::*;
 
 pub const FRACS: [f64; 8] = [1.0, 0.5, 0.05, 0.05, 0.05, 0.01, 0.01, 0.002];
@@ -182,6 +182,83 @@ pub fn gen_space(rng: &mut Xo, o: &GenOpts) -> SpaceSpec {
                 native,
             }
         }
+    }
+}
+
+fn shrink_interval(rng: &mut Xo, lo: f64, hi: f64, keep: Option<f64>) -> (f64, f64) {
+    let len = hi - lo;
+    let nl = len * rng.range(0.4, 0.9);
+    let (a_min, a_max) = match keep {
+        // the kept coordinate stays inside with a margin of a tenth of the new length
+        Some(x) => ((x - 0.9 * nl).max(lo), (x - 0.1 * nl).min(hi - nl)),
+        None => (lo, hi - nl),
+    };
+    if !(a_max >= a_min) || !nl.is_finite() || !(nl > 0.0) {
+        return (lo, hi);
+    }
+    let a = rng.range(a_min, a_max.max(a_min));
+    (a, a + nl)
+}
+
+/// A variant of `spec` with the same kind and layout but other bounds (tighter boxes and arcs)
+/// and / or another motion-check resolution: what a later `setup` may legitimately bring along.
+/// `keep`: a flat state that must stay inside the new bounds.
+pub fn variant_space(rng: &mut Xo, spec: &SpaceSpec, keep: Option<&[f64]>, min_frac: f64) -> SpaceSpec {
+    let tighten = rng.chance(0.6);
+    let refrac = !tighten || rng.chance(0.5);
+    fn part(rng: &mut Xo, p: &SpaceSpec, keep: Option<&[f64]>, tighten: bool, refrac: bool, mf: f64) -> SpaceSpec {
+        match p {
+            SpaceSpec::RV { dim, bounds, frac } => SpaceSpec::RV {
+                dim: *dim,
+                bounds: bounds.as_ref().map(|b| b.iter().enumerate().map(|(i, (lo, hi))| if tighten && rng.chance(0.7) { shrink_interval(rng, *lo, *hi, keep.map(|k| k[i])) } else { (*lo, *hi) }).collect()),
+                frac: if refrac { pick_frac(rng, mf) } else { *frac },
+            },
+            SpaceSpec::SO2 { bounds, frac } => {
+                let (lo, hi) = bounds.unwrap_or((-PI, PI));
+                let x = keep.map(|k| (k[0] + PI).rem_euclid(2.0 * PI) - PI);
+                SpaceSpec::SO2 { bounds: if tighten && rng.chance(0.5) { Some(shrink_interval(rng, lo, hi, x)) } else { *bounds }, frac: if refrac { pick_frac(rng, mf) } else { *frac } }
+            }
+            SpaceSpec::SO3 { bounds, frac } => SpaceSpec::SO3 { bounds: *bounds, frac: if refrac { pick_frac(rng, mf) } else { *frac } },
+            other => other.clone(),
+        }
+    }
+    match spec {
+        SpaceSpec::Compound { parts, weights } => {
+            let mut off = 0;
+            let mut np = vec![];
+            for p in parts {
+                let w = width(p);
+                np.push(part(rng, p, keep.map(|k| &k[off..off + w]), tighten, refrac, min_frac));
+                off += w;
+            }
+            SpaceSpec::Compound { parts: np, weights: weights.clone() }
+        }
+        SpaceSpec::SE2 { weight, bounds, frac_t, frac_r, native } => {
+            let mut b = bounds.clone();
+            if tighten {
+                for i in 0..3 {
+                    if rng.chance(0.6) {
+                        let x = keep.map(|k| if i == 2 { (k[2] + PI).rem_euclid(2.0 * PI) - PI } else { k[i] });
+                        b[i] = shrink_interval(rng, b[i].0.max(if i == 2 { -PI } else { f64::NEG_INFINITY }), b[i].1.min(if i == 2 { PI } else { f64::INFINITY }), x);
+                    }
+                }
+            }
+            let rf = refrac && !*native;
+            SpaceSpec::SE2 { weight: *weight, bounds: b, frac_t: if rf { pick_frac(rng, min_frac) } else { *frac_t }, frac_r: if rf { pick_frac(rng, min_frac) } else { *frac_r }, native: *native }
+        }
+        SpaceSpec::SE3 { weight, bounds, cone, frac_t, frac_r, native } => {
+            let mut b = bounds.clone();
+            if tighten {
+                for i in 0..3 {
+                    if rng.chance(0.6) {
+                        b[i] = shrink_interval(rng, b[i].0, b[i].1, keep.map(|k| k[i]));
+                    }
+                }
+            }
+            let rf = refrac && !*native;
+            SpaceSpec::SE3 { weight: *weight, bounds: b, cone: *cone, frac_t: if rf { pick_frac(rng, min_frac) } else { *frac_t }, frac_r: if rf { pick_frac(rng, min_frac) } else { *frac_r }, native: *native }
+        }
+        other => part(rng, other, keep, tighten, refrac, min_frac),
     }
 }
 
@@ -730,7 +807,7 @@ pub fn base(rng: &mut Xo, prop: &str, seed: u64, index: u64, o: &GenOpts) -> Sce
         problems: vec![ProblemSpec {
             starts: vec![wb.start],
             goal: GoalSpec { target: wb.target, radius: wb.goal_radius, sampler, sampler_seed: rng.u64() % 1_000_000, comp: wb.goal_comp },
-            world: 0,
+            world: 0, space: None
         }],
         planner,
         sampling: Sampling { script: vec![] },
